@@ -6,10 +6,10 @@ CONSTANTS
     MaxCalls = 1
     Inst = {1}
     Limit = 3
-    CapN = 2
+    CapN = 0
     Cache = 0
     Compress = FALSE
-    ExtK = 0
+    ExtK = 2
     CapProbe = TRUE
     Debug = FALSE
     HookMode = "ok"
